@@ -138,12 +138,14 @@ PROPS = {
         'explanation': 'LTS of threadpool.c at pthread-operation granularity (model/Pool.v). Engine pl: the real threadpool.c under controlled schedules - default, every single preemption of it, seeded random with random signal targets and spurious wake-ups, pairs of preemptions (thorough) - replayed on the LTS with the enabled-thread set compared after every step; deadlock, assertion failure, lost/duplicated/reordered results and too many workers are violations.',
     },
     'C14': {
-        'engines': [{'name': 'tsan', 'kind': 'external', 'run': ext_engines.tsan_engine}],
+        'engines': [{'name': 'tsan', 'kind': 'external', 'run': ext_engines.tsan_engine}, {'name': 'pl', 'timeout_quick': 900, 'timeout_thorough': 7200}],
         'c_variants': ('all', 'tsan'),
-        'trusted_base': ['ThreadSanitizer (gcc -fsanitize=thread) on the library built from /repo with the hook enabled; harness/tsan_stress.c'],
-        'assumptions': ['PARTIAL by nature: a theorem about the Gallina LTS says nothing about which memory accesses the C code performs; T14a_lock_partial states mutual exclusion and ownership after acquisition on the LTS, T14_statement (full lockset discipline) is stated only',
+        'trusted_base': ['ThreadSanitizer (gcc -fsanitize=thread) on the library built from /repo with the hook enabled; harness/tsan_stress.c',
+                         'schedule-controlling pthread shim (engine pl): ties the LTS, on which the race-freedom theorems are stated, to threadpool.c step by step; the per-label access lists (seg_access) are hand-written from threadpool.c'],
+        'assumptions': ['T14_race_free: caller program respects the API contract (prog_wf), a signal wakes only a blocked thread (sched_wf), a thread starts only after its pthread_create (sched_causal; engine pl checks all three on every trace), program shorter than 2^63 commands',
+                        'a theorem about the Gallina LTS says nothing about which memory accesses the C code performs outside threadpool.c (writer / sorter fields owned by the handler thread, readers shared between threads): that part is searched with ThreadSanitizer',
                         'absence of a TSan report on the explored executions is not a proof of race freedom; a report is a concrete violation'],
-        'explanation': 'Protocol-level lock discipline on the LTS of threadpool.c (which mutex guards which fields; acquisition only when free; the code after an acquisition runs as owner). Data-race freedom of the C code is searched with ThreadSanitizer on real concurrent programs: pooled writers and sorters sharing one pool from several caller threads, many threads on one reader, first-use of the CRC dispatch from several workers, mixed.',
+        'explanation': 'Race freedom of the thread-pool protocol proved on the LTS of threadpool.c for all schedules (in-flight access sets per program point, lockset theorem, ownership invariants for the unlocked accesses). Data-race freedom of the C code is searched with ThreadSanitizer on real concurrent programs: pooled writers and sorters sharing one pool from several caller threads, many threads on one reader, first-use of the CRC dispatch from several workers, mixed.',
     },
     'C15': {
         'engines': [{'name': 'c15', 'timeout_quick': 600, 'timeout_thorough': 7200}],
